@@ -288,13 +288,26 @@ Error CodeHolder::reinit() noexcept {
   }
   CodeHolder_add_text_section(this);
 
+  // An emitter that cannot be reinitialized (it needs memory as well) is detached, which leaves it in a clean state
+  // so it can be attached again. The first such error is reported.
+  Error result = Error::kOk;
   BaseEmitter* emitter = _attached_first;
+
   while (emitter) {
-    emitter->on_reinit(*this);
-    emitter = emitter->_attached_next;
+    BaseEmitter* next = emitter->_attached_next;
+    Error emitter_err = emitter->on_reinit(*this);
+
+    if (ASMJIT_UNLIKELY(emitter_err != Error::kOk)) {
+      (void)detach(emitter);
+      if (result == Error::kOk) {
+        result = emitter_err;
+      }
+    }
+
+    emitter = next;
   }
 
-  return Error::kOk;
+  return result;
 }
 
 void CodeHolder::reset(ResetPolicy reset_policy) noexcept {
